@@ -49,7 +49,13 @@ def parse_events(xml_bytes):
                     unp = ch.find("unpitched")
                     rest = 0 if (pitch is not None or unp is not None) else 1
                     ties = [t.get("type") for t in ch.findall("tie")]
-                    evs.append({"ev": "note", "id": ch.get("id") or "", "dur": int(txt(ch, "duration", "0")),
+                    rngs = []
+                    for kind in ("slur", "tuplet"):
+                        for el in ch.findall("notations/" + kind):
+                            if el.get("type") in ("start", "stop"):
+                                rngs.append({"kind": kind, "number": int(el.get("number") or 1), "type": el.get("type")})
+                    rngs.sort(key=lambda r: r["type"] != "stop")        # a reader closes before it opens
+                    evs.append({"ev": "note", "ranges": rngs, "id": ch.get("id") or "", "dur": int(txt(ch, "duration", "0")),
                                 "chord": 1 if ch.find("chord") is not None else 0, "grace": 1 if ch.find("grace") is not None else 0, "rest": rest,
                                 "step": (txt(pitch, "step") if pitch is not None else (txt(unp, "display-step") if unp is not None else "C")),
                                 "alter": int(txt(pitch, "alter", "0")) if pitch is not None else 0,
@@ -57,11 +63,37 @@ def parse_events(xml_bytes):
                                 "voice": int(txt(ch, "voice", "0")), "staff": int(txt(ch, "staff", "1")),
                                 "tie_stop": 1 if "stop" in ties else 0, "tie_start": 1 if "start" in ties else 0,
                                 "type": txt(ch, "type", ""), "dots": len(ch.findall("dot"))})
+                elif ch.tag == "direction":
+                    rngs = []
+                    for dt in ch.findall("direction-type"):
+                        for el in dt:
+                            if el.tag == "wedge" and el.get("type") in ("crescendo", "diminuendo", "stop"):
+                                rngs.append({"kind": "wedge", "number": int(el.get("number") or 1), "type": "stop" if el.get("type") == "stop" else "start"})
+                            elif el.tag in ("dashes", "pedal") and el.get("type") in ("start", "stop"):
+                                rngs.append({"kind": el.tag, "number": int(el.get("number") or 1), "type": el.get("type")})
+                    if rngs:
+                        rngs.sort(key=lambda r: r["type"] != "stop")
+                        evs.append({"ev": "direction", "ranges": rngs})
                 elif ch.tag in ("backup", "forward"):
                     evs.append({"ev": ch.tag, "d": int(txt(ch, "duration", "0"))})
             evs.append({"ev": "endmeasure"})
         out[part_e.get("id")] = evs
     return out
+
+
+def with_ranges(score, part, e):
+    """slurs, tuplets and the spans of wedges, dashes and pedals of a part, for the trace verdict"""
+    e["slurs"] = [[s.start_note.id, s.end_note.id] for s in part.iter_all(score.Slur) if s.start_note is not None and s.end_note is not None]
+    e["tuplets"] = [[t.start_note.id, t.end_note.id] for t in part.iter_all(score.Tuplet) if t.start_note is not None and t.end_note is not None]
+    spans = []
+    for d in part.iter_all(score.DynamicDirection, include_subclasses=True):
+        if d.end is not None:
+            spans.append(["wedge" if getattr(d, "wedge", False) else "dashes", d.start.t, d.end.t])
+    for d in part.iter_all(score.SustainPedalDirection):
+        if d.end is not None:
+            spans.append(["pedal", d.start.t, d.end.t])
+    e["spans"] = spans
+    return e
 
 
 def no_nulls(x, key=None):
@@ -99,12 +131,19 @@ def decorate(score, rng, part, level):
     # phrasing slurs meeting on a note, nested and overlapping slurs
     line = sorted([n for n in notes if n.voice == 1], key=lambda n: (n.start.t, n.midi_pitch if hasattr(n, "midi_pitch") else 0))
     line = [n for k, n in enumerate(line) if k == 0 or n.start.t > line[k - 1].start.t]
-    if len(line) >= 4 and rng.random() < 0.35:
-        kind = rng.choice(["chain", "nested", "overlap"])
-        i = rng.randint(0, len(line) - 4)
-        a, b, c, d = line[i:i + 4]
-        pairs = {"chain": [(a, b), (b, d)], "nested": [(a, d), (b, c)], "overlap": [(a, c), (b, d)]}[kind]
-        if not any(x.slur_starts or x.slur_stops for x in (a, b, c, d)):
+    if len(line) >= 4 and rng.random() < 0.45:
+        kind = rng.choice(["chain", "nested", "overlap"] + (["relay"] * 2 if len(line) >= 6 else []))
+        if kind == "relay":
+            # a slur ends while a later one is still open and a third begins (numbers are handed on)
+            i = rng.randint(0, len(line) - 6)
+            a, b, c, d, e, f = line[i:i + 6]
+            pairs, used_notes = [(a, c), (b, e), (d, f)], (a, b, c, d, e, f)
+        else:
+            i = rng.randint(0, len(line) - 4)
+            a, b, c, d = line[i:i + 4]
+            pairs = {"chain": [(a, b), (b, d)], "nested": [(a, d), (b, c)], "overlap": [(a, c), (b, d)]}[kind]
+            used_notes = (a, b, c, d)
+        if not any(x.slur_starts or x.slur_stops for x in used_notes):
             for x, y in pairs:
                 part.add(score.Slur(x, y), x.start.t, y.end.t)
             used.add("slurs_" + kind)
@@ -380,7 +419,7 @@ def main(chk):
             evs = parse_events(b0)
             for p in sc.parts:
                 tid += 1
-                e = extract(score, p)
+                e = with_ranges(score, p, extract(score, p))
                 if revoiced:
                     for n in e["notes"]:
                         n["voice"] = 0      # voices are re-assigned: not compared
@@ -471,7 +510,7 @@ def main(chk):
                 if any(n.id is None for n in p.notes_tied) or dup_ids:
                     continue
                 tid += 1
-                batch.append({"cid": tid, "events": evs.get(p.id, []), "part": extract(score, p)})
+                batch.append({"cid": tid, "events": evs.get(p.id, []), "part": with_ranges(score, p, extract(score, p))})
                 ctx[tid] = (name, p.id, ["fixture"])
                 ctx[("b0", name)] = b1
         except Exception as ex:
